@@ -65,7 +65,7 @@ M = [
  ('m-c19-concurrency', 'C19', [('src/ssh_audit/ssh_audit.py', "dh_rate_test_notes = DHEat.dh_rate_test(out, aconf, kex, 1.5, 38, 3)", "dh_rate_test_notes = DHEat.dh_rate_test(out, aconf, kex, 1.5, 38, 6)")], '6 concurrent sockets in the rate test'),
  ('m-c19-rate-when-skipped', 'C19', [('src/ssh_audit/ssh_audit.py', "                if aconf.skip_rate_test:", "                if aconf.skip_rate_test and aconf.policy is None:")], 'policy audits run the rate test although --skip-rate-test was given'),
  # ---- property-preserving refactorings: every check must stay green on these
- ('eq-sendall', ['C01','C02','C03','C04','C05','C06','C07','C08','C09','C10','C11','C12','C13','C14','C15','C16','C18','C19'], [('src/ssh_audit/ssh_socket.py', "            self.__sock.send(data)\n            return 0, None", "            self.__sock.sendall(data)\n            return 0, None")], 'send -> sendall'),
+ ('eq-sendall', ['C01','C02','C03','C04','C05','C06','C07','C08','C09','C10','C11','C12','C13','C14','C15','C16','C18','C19'], [('src/ssh_audit/ssh_socket.py', "            while len(data) > 0:\n                sent = self.__sock.send(data)\n                if sent is None:  # A socket stand-in that reports no count has taken everything.\n                    break\n                data = data[sent:]\n            return 0, None", "            self.__sock.sendall(data)\n            return 0, None")], 'send loop -> sendall'),
  ('eq-create-connection', ['C01','C02','C03','C04','C05','C06','C07','C08','C09','C10','C11','C12','C13','C14','C15','C16','C18','C19'], [('src/ssh_audit/ssh_socket.py', "                s = socket.socket(af, socket.SOCK_STREAM)\n                s.settimeout(self.__timeout)\n", "                s = None\n"), ('src/ssh_audit/ssh_socket.py', "                s.connect(addr)\n                self.__sock = s", "                s = socket.create_connection((addr[0], addr[1]), self.__timeout)\n                self.__sock = s")], 'socket()+connect() -> socket.create_connection()'),
  ('eq-format-padding', ['C01','C02','C03','C04','C05','C06','C07','C08','C09','C10','C11','C12','C13','C14','C15','C16','C18','C19'], [('src/ssh_audit/ssh_audit.py', "        comment = (padding + ' -- [' + level + '] ' + text) if text != '' else ''", "        comment = (padding + '   -- [' + level + '] ' + text) if text != '' else ''"), ('src/ssh_audit/ssh_audit.py', "        out.head('# ' + title)", "        out.head('## ' + title.upper())")], 'wider padding and different section titles'),
  ('eq-recv-size', ['C01','C02','C03','C04','C05','C06','C07','C08','C09','C10','C11','C12','C13','C14','C15','C16','C18','C19'], [('src/ssh_audit/ssh_socket.py', "    def recv(self, size: int = 2048) -> Tuple[int, Optional[str]]:", "    def recv(self, size: int = 512) -> Tuple[int, Optional[str]]:")], 'smaller recv chunks'),
